@@ -1,2 +1,5 @@
 //! Shared pieces of the /verif correspondence harness.
 pub mod rng;
+pub mod driver;
+pub mod e2e;
+pub mod reserve;
